@@ -83,6 +83,12 @@ let f32_poszero : float ops =
   let z v = if v = 0.0 then 0.0 else v in
   { b with o_un = (fun op a -> z (b.o_un op a)); o_bin = (fun op x y -> z (b.o_bin op x y)) }
 
+(* ... and the mirror image, every zero result -0: atan2(+0, -0) = pi but atan2(+0, +0) = 0 *)
+let f32_negzero : float ops =
+  let b = mk_ops r32 in
+  let z v = if v = 0.0 then (-0.0) else v in
+  { b with o_un = (fun op a -> z (b.o_un op a)); o_bin = (fun op x y -> z (b.o_bin op x y)) }
+
 (* shadow arenas: the same build commands replayed with other arithmetics (plain doubles, noisy
    binary32), so that constants FOLDED AT BUILD TIME (Tree::unary / Tree::binary on constants) are
    covered by the stability probe too: tan(exp(64)) feeding acos, mod of folded constants, ... *)
@@ -90,7 +96,7 @@ type shadow = { so : float ops; sa : float arena ref; shh : int array ref;
                 sv : (int, int) Hashtbl.t; mutable sok : bool }
 let new_shadows () =
   List.map (fun o -> { so = o; sa = ref (init_arena o); shh = ref [||]; sv = Hashtbl.create 8; sok = true })
-    [mk_ops (fun x -> x); f32_noisy 101; f32_noisy 102; f32_noisy 103; f32_poszero]
+    [mk_ops (fun x -> x); f32_noisy 101; f32_noisy 102; f32_noisy 103; f32_poszero; f32_negzero]
 
 (* ---- canonical DAG dump (identical grammar in harness/expr.cpp) ---- *)
 let dump_dag (a : float arena) (root : int) (var_index : int -> int) : string =
@@ -427,6 +433,7 @@ let () =
                     let o = f32_noisy seed in
                     Float.max acc (dist (eval_pipeline o false !a (h t) varval x y z))) 0.0 [1; 2; 3; 4; 5; 6; 7; 8] in
                 let noise = Float.max noise (dist (eval_pipeline f32_poszero false !a (h t) varval x y z)) in
+                let noise = Float.max noise (dist (eval_pipeline f32_negzero false !a (h t) varval x y z)) in
                 (* a NaN intermediate in a variant (mod(0,0) once atan2(-0,-0) = -pi has become atan2(0,0) = 0):
                    min / max pass a NaN on or not depending on the operand order, so the point is outside the domain *)
                 let nan_in o =
@@ -437,7 +444,7 @@ let () =
                     List.exists Float.is_nan (eval_tape o no_oracle d d.d_tape
                       (set_point d (init_slots o d (fun v -> varval (int_of_nat v))) x y z))
                   with _ -> false) in
-                let noise = if nan_in f32_poszero || nan_in (f32_noisy 1) || nan_in (f32_noisy 2) then infinity else noise in
+                let noise = if nan_in f32_poszero || nan_in f32_negzero || nan_in (f32_noisy 1) || nan_in (f32_noisy 2) then infinity else noise in
                 (* ... and under the shadow builds (doubles, noisy binary32), which also re-fold the constants *)
                 let noise = if Hashtbl.length oracle_tbl <> 0 then noise else
                   List.fold_left (fun acc sh ->
